@@ -81,11 +81,27 @@ func observeItem(o *xbobs.Obs, s *hx.Sink, id uint64, it Item, rooms []int, fill
 		o.Mark("%s %d/len %d: Writable*Size", it.K, it.V, len(body))
 		o.AddInt(sz)
 	}
-	for _, room := range rooms {
-		buf := make([]byte, room)
-		for i := range buf {
-			buf[i] = fill
+	for ri, room := range rooms {
+		// the destination is a slice of exactly `room` bytes - every other time a window of a larger frame (spare
+		// capacity behind it: the neighbouring item of the frame must not be touched, a too-short window must fail)
+		spare := 0
+		if ri%2 == 1 {
+			spare = 12
 		}
+		frame := make([]byte, room+spare)
+		for i := range frame {
+			frame[i] = fill
+		}
+		buf := frame[:room]
+		defer func(room int, frame []byte) {
+			for _, b := range frame[room:] {
+				if b != fill {
+					s.DirectViolation(id, "Marshal wrote behind the end of its destination slice (into its spare capacity)",
+						map[string]any{"kind": it.K, "room": room})
+					return
+				}
+			}
+		}(room, frame)
 		st, n := xbobs.Marshal(it.K, it.V, body, buf)
 		o.Mark("Marshal into %d bytes: ok,n,buf", room)
 		o.Add(st)
